@@ -87,15 +87,21 @@ def FireRel (env : Env) (B : Nat) (W : Stmt) (a : Async) (Lr : Nat) (extra : St 
   ∀ (st : St) (rest : List Input) (K : Nat), K ≤ Lr → st.inputs = .release :: rest → st.left = some K → QuietC a st → extra st →
     Fired a st (exec env B st W) ∧ (exec env B st W).1.results = st.results
 
-/-- how the loop is left -/
-inductive LoopOut (a : Async) (n : Nat) (st : St) (r : St × Out) : Prop where
-  /-- every item and the release marker were processed; the event (if any) is still to come -/
-  | passed (hout : r.2 = .normal)
-      (heq : r.1 = { st with rtrace := r.1.rtrace, left := r.1.left, inputs := [], extraNone := true,
+/-- line events of a loop that processes `n` items and then the release marker -/
+def loopLen (n L Lr : Nat) : Nat := n * (L + 1) + (Lr + 1)
+
+theorem loopLen_zero (L Lr : Nat) : loopLen 0 L Lr = Lr + 1 := by simp [loopLen]
+theorem loopLen_succ (n L Lr : Nat) : loopLen (n + 1) L Lr = loopLen n L Lr + (L + 1) := by
+  simp only [loopLen, Nat.succ_mul]; omega
+
+/-- how the loop is left when it is entered with `K` line events to go before the event -/
+inductive LoopOut (a : Async) (n L Lr K : Nat) (st : St) (r : St × Out) : Prop where
+  /-- every item and the release marker were processed; the event is still to come -/
+  | passed (hK : loopLen n L Lr ≤ K) (hout : r.2 = .normal)
+      (heq : r.1 = { st with rtrace := r.1.rtrace, left := some (K - loopLen n L Lr), inputs := [], extraNone := true,
                              counter := st.counter + n, results := st.results ++ itemsFrom st.counter n })
-      (hleft : r.1.left.isSome)
   /-- the event fired after `j` complete passes, in the pass that started with `j` results written -/
-  | fired (j : Nat) (hj : j ≤ n) (mid : St)
+  | fired (hK : K < loopLen n L Lr) (j : Nat) (hj : j ≤ n) (mid : St)
       (hmid : mid.counter = st.counter + j ∧ mid.results = st.results ++ itemsFrom st.counter j ∧
               mid.cur = st.cur ∧ mid.result = st.result ∧ mid.var = st.var ∧ mid.comms = st.comms ∧
               mid.commsClosed = st.commsClosed ∧ mid.cleaned = st.cleaned ∧ mid.stop = st.stop ∧ mid.async = st.async ∧
@@ -134,7 +140,7 @@ theorem loop_disturbed (env : Env) (B ln : Nat) (c : Cond) (body : List Stmt) (a
     (hextra : ∀ (st : St) (t : List Nat) (l : Option Nat) (i : List Input) (e : Bool) (cn : Nat) (rs : List Msg),
       extra st → extra { st with rtrace := t, left := l, inputs := i, extraNone := e, counter := cn, results := rs }) :
     ∀ n : Nat, ∃ F, B ≤ F ∧ ∀ (st : St) (K : Nat), st.inputs = List.replicate n .item ++ [.release] → st.left = some K →
-      QuietC a st → extra st → LoopOut a n st (exec env F st (.whileS ln c body)) := by
+      QuietC a st → extra st → LoopOut a n L Lr K st (exec env F st (.whileS ln c body)) := by
   intro n
   induction n with
   | zero =>
@@ -147,7 +153,8 @@ theorem loop_disturbed (env : Env) (B ln : Nat) (c : Cond) (body : List Stmt) (a
       have hm := exec_mono env (rfl : exec env B st (.whileS ln c body) = _) (by rw [hfire.out]; exact firedOut_ne_fuel a)
         (B + 1) (Nat.le_succ _)
       rw [hm]
-      refine .fired 0 (Nat.le_refl _) st ⟨by simp, by simp [itemsFrom], rfl, rfl, rfl, rfl, rfl, rfl, rfl, rfl, rfl, rfl⟩ hfire ?_
+      refine .fired (by rw [loopLen_zero]; omega) 0 (Nat.le_refl _) st
+        ⟨by simp, by simp [itemsFrom], rfl, rfl, rfl, rfl, rfl, rfl, rfl, rfl, rfl, rfl⟩ hfire ?_
       intro h
       rw [hres] at h
       have := congrArg List.length h
@@ -160,10 +167,10 @@ theorem loop_disturbed (env : Env) (B ln : Nat) (c : Cond) (body : List Stmt) (a
       simp only at h1 h2
       subst h2
       rw [while_break_c env ln c body st stb (m + Lr) B hl hq.inflight (hcond _ hq.stop) hr]
-      refine .passed rfl ?_ ?_
-      · simp only [itemsFrom, Nat.add_zero, List.append_nil]
-        rw [h1]
-      · rw [h1]; rfl
+      have hm : m + Lr + 1 - loopLen 0 L Lr = m := by rw [loopLen_zero]; omega
+      refine .passed (by rw [loopLen_zero]; omega) rfl ?_
+      simp only [itemsFrom, Nat.add_zero, List.append_nil, hm]
+      rw [h1]
   | succ n ih =>
     obtain ⟨F, hBF, ih⟩ := ih
     refine ⟨max B F + 1, by omega, ?_⟩
@@ -175,8 +182,8 @@ theorem loop_disturbed (env : Env) (B ln : Nat) (c : Cond) (body : List Stmt) (a
       have hm := exec_mono env (rfl : exec env B st (.whileS ln c body) = _) (by rw [hfire.out]; exact firedOut_ne_fuel a)
         (max B F + 1) (by omega)
       rw [hm]
-      exact .fired 0 (Nat.zero_le _) st ⟨by simp, by simp [itemsFrom], rfl, rfl, rfl, rfl, rfl, rfl, rfl, rfl, rfl, rfl⟩ hfire
-        (fun _ => by omega)
+      exact .fired (by rw [loopLen_succ]; omega) 0 (Nat.zero_le _) st
+        ⟨by simp, by simp [itemsFrom], rfl, rfl, rfl, rfl, rfl, rfl, rfl, rfl, rfl, rfl⟩ hfire (fun _ => by omega)
     · obtain ⟨m, rfl⟩ : ∃ m, K = m + L + 1 := ⟨K - L - 1, by omega⟩
       obtain ⟨h2, h1⟩ := hitem st _ m hi hq.inflight hq.stop
       generalize hr : execBlock env B { st with rtrace := ln :: st.rtrace, left := some (m + L) } body = rb at h1 h2
@@ -190,18 +197,164 @@ theorem loop_disturbed (env : Env) (B ln : Nat) (c : Cond) (body : List Stmt) (a
       have hpost := ih _ m rfl rfl hq' (hextra st _ _ _ _ _ _ hx)
       have hne : (exec env F { st with rtrace := X, left := some m, inputs := List.replicate n Input.item ++ [Input.release], extraNone := false, counter := st.counter + 1, results := st.results ++ [Msg.item (st.counter + 1)] } (.whileS ln c body)).2 ≠ .fuel := by
         cases hpost with
-        | passed hout _ _ => rw [hout]; simp
-        | fired j hj mid hmid hfired _ => rw [hfired.out]; exact firedOut_ne_fuel a
+        | passed _ hout _ => rw [hout]; simp
+        | fired _ j hj mid hmid hfired _ => rw [hfired.out]; exact firedOut_ne_fuel a
       rw [while_step_c env ln c body st _ (m + L) B F _ hl hq.inflight (hcond _ hq.stop) hr rfl hne]
       cases hpost with
-      | passed hout heq hleft =>
-        refine .passed hout ?_ hleft
-        rw [heq]
+      | passed hK' hout heq =>
+        have hm : m + L + 1 - loopLen (n + 1) L Lr = m - loopLen n L Lr := by rw [loopLen_succ]; omega
+        refine .passed (by rw [loopLen_succ]; omega) hout ?_
+        rw [heq, hm]
         simp [itemsFrom, Nat.add_assoc, Nat.add_comm 1 n]
-      | fired j hj mid hmid hfired hroom =>
+      | fired hK' j hj mid hmid hfired hroom =>
         obtain ⟨m1, m2, m3, m4, m5, m6, m7, m8, m9, m10, m11, m12⟩ := hmid
-        refine .fired (j + 1) (by omega) mid ⟨?_, ?_, m3, m4, m5, m6, m7, m8, m9, m10, m11, m12⟩ hfired (fun h => by have := hroom h; omega)
+        refine .fired (by rw [loopLen_succ]; omega) (j + 1) (by omega) mid ⟨?_, ?_, m3, m4, m5, m6, m7, m8, m9, m10, m11, m12⟩ hfired
+          (fun h => by have := hroom h; omega)
         · rw [m1]; simp only; omega
         · rw [m2]; simp only [List.append_assoc, itemsFrom_snoc]
+
+/-! ### reading a regenerated program: its loop, the lengths of a pass, what the code around the loop sees -/
+/-- the environment of the theorems about the regenerated loops: the target returns, is not `None`, does not assign `user_state` -/
+structure Returns (env : Env) : Prop where
+  ret : env.target = .returns
+  tn : env.targetNone = false
+  na : env.assigns = false
+
+def lnOf : Stmt → Nat
+  | .whileS ln _ _ => ln
+  | _ => 0
+def condOf : Stmt → Cond
+  | .whileS _ c _ => c
+  | _ => .notStop
+def bodyOf : Stmt → List Stmt
+  | .whileS _ _ b => b
+  | _ => []
+/-- line events of the body during a pass that receives `i` -/
+def passLen (body : List Stmt) (i : Input) : Nat := (execBlock {} 60 { inputs := [i] } body).1.rtrace.length
+/-- the asynchronous events covered: `terminate()` delivered by either mechanism, or a kill -/
+def Covered (a : Async) : Prop := a = .raiseWte false ∨ a = .kill ∨ a = .raiseWte true
+
+theorem itemsFrom_succ_right (c n : Nat) : itemsFrom c (n + 1) = itemsFrom c n ++ [.item (c + n + 1)] := by
+  induction n generalizing c with
+  | zero => simp [itemsFrom]
+  | succ n ih =>
+    have h := ih (c + 1)
+    simp only [itemsFrom] at h ⊢
+    rw [h]
+    simp [Nat.add_assoc, Nat.add_comm 1 n]
+
+/-- the loop was left by the event: what the code around the loop can observe (the flat form of `LoopOut.fired`) -/
+structure LeftBy (a : Async) (n : Nat) (st : St) (r : St × Out) : Prop where
+  out : r.2 = firedOut a
+  prefix_ : ∃ j, j ≤ n ∧ r.1.results = st.results ++ itemsFrom st.counter j ∧
+    (r.1.counter = st.counter + j ∨ r.1.counter = st.counter + j + 1)
+  left : r.1.left = none
+  inflight : r.1.inflight = none
+  req : r.1.terminateReq = firedReq a st
+  ctrl : r.1.ctrlAlive = firedCtrl a st
+  cur : r.1.cur = st.cur
+  result : r.1.result = st.result
+  var : r.1.var = st.var
+  comms : r.1.comms = st.comms
+  commsClosed : r.1.commsClosed = st.commsClosed
+  cleaned : r.1.cleaned = st.cleaned
+  stop : r.1.stop = st.stop
+  async : r.1.async = st.async
+
+theorem LoopOut.leftBy {a : Async} {n L Lr K : Nat} {st : St} {r : St × Out} (h : LoopOut a n L Lr K st r) (hK : K < loopLen n L Lr) :
+    LeftBy a n st r := by
+  cases h with
+  | passed hK' _ _ => omega
+  | fired _ j hj mid hmid hf hroom =>
+    obtain ⟨m1, m2, m3, m4, m5, m6, m7, m8, m9, m10, m11, m12⟩ := hmid
+    have hreq : firedReq a mid = firedReq a st := by cases a <;> simp [firedReq, m11]
+    have hctrl : firedCtrl a mid = firedCtrl a st := by cases a <;> simp [firedCtrl, m12]
+    refine ⟨hf.out, ?_, hf.left, hf.inflight, by rw [hf.req, hreq], by rw [hf.ctrl, hctrl], by rw [hf.cur, m3], by rw [hf.result, m4],
+      by rw [hf.var, m5], by rw [hf.comms, m6], by rw [hf.commsClosed, m7], by rw [hf.cleaned, m8], by rw [hf.stop, m9], by rw [hf.async, m10]⟩
+    rcases hf.results with h | h
+    · refine ⟨j, hj, by rw [h, m2], ?_⟩
+      rcases hf.counter with hc | hc
+      · left; rw [hc, m1]
+      · right; rw [hc, m1]
+    · refine ⟨j + 1, hroom h, ?_, ?_⟩
+      · rw [h, m2, m1, itemsFrom_succ_right, List.append_assoc]
+      · left; rw [hf.consistent h, m1]; omega
+
+theorem forall_lt_zero' {P : Nat → Prop} : ∀ m, m < 0 → P m := fun _ h => absurd h (Nat.not_lt_zero _)
+theorem forall_lt_succ' {P : Nat → Prop} {k : Nat} (h1 : ∀ m, m < k → P m) (h2 : P k) : ∀ m, m < k + 1 → P m := by
+  intro m hm
+  by_cases h : m = k
+  · subst h; exact h2
+  · exact h1 m (by omega)
+
+/-- what a reader of the results pipe can see after a run on `n` items: result messages with counters `1..j` for some
+    `j ≤ n`, in order, then nothing or exactly one end marker (and the interpreter did not run out of fuel) -/
+def StreamShape (n : Nat) (r : St × Out) : Prop :=
+  r.2 ≠ .fuel ∧ ∃ j, j ≤ n ∧ (r.1.results = itemsFrom 0 j ∨ ∃ e, r.1.results = itemsFrom 0 j ++ [.endMarker e])
+
+/-- what the summary of a loop (`@K@_loop_disturbed`) says, as a hypothesis -/
+def LoopSummary (env : Env) (a : Async) (n L Lr F : Nat) (W : Stmt) (extra : St → Prop) : Prop :=
+  ∀ (st : St) (K : Nat), st.inputs = List.replicate n .item ++ [.release] → st.left = some K →
+    QuietC a st → extra st → LoopOut a n L Lr K st (exec env F st W)
+
+/-- rewriting rule: a loop that is entered with enough line events to go is passed completely -/
+theorem loop_pass_rule (env : Env) (a : Async) (n L Lr F : Nat) (W : Stmt) (extra : St → Prop) (hF : LoopSummary env a n L Lr F W extra) :
+    ∀ (k : Nat) (st : St), st.inputs = List.replicate n .item ++ [.release] → st.left.isSome = true →
+      loopLen n L Lr ≤ st.left.getD 0 → st.inflight = none → st.stop = false → st.async = a → extra st →
+      exec env (F + k) st W = ({ st with rtrace := loopTr env F st W, left := some (st.left.getD 0 - loopLen n L Lr), inputs := [], extraNone := true, counter := st.counter + n, results := st.results ++ itemsFrom st.counter n }, .normal) := by
+  intro k st hi hl hK hf hs ha hc
+  obtain ⟨K, hK'⟩ := Option.isSome_iff_exists.mp hl
+  rw [hK'] at hK
+  simp only [Option.getD_some] at hK
+  have h := hF st K hi hK' ⟨hf, hs, ha⟩ hc
+  have : exec env F st W = ({ st with rtrace := loopTr env F st W, left := some (st.left.getD 0 - loopLen n L Lr), inputs := [], extraNone := true, counter := st.counter + n, results := st.results ++ itemsFrom st.counter n }, .normal) := by
+    cases h with
+    | passed _ hout heq =>
+      apply Prod.ext
+      · rw [hK']; exact heq
+      · exact hout
+    | fired hlt _ _ _ _ _ _ => omega
+  exact exec_mono env this (by simp) _ (Nat.le_add_right _ _)
+
+/-- the state in which the loop is left (opaque in the rewriting rules: they must not mention `exec` on the right) -/
+def loopEx (env : Env) (F : Nat) (st : St) (W : Stmt) : St := (exec env F st W).1
+
+/-- rewriting rule: a loop that is entered with fewer line events to go than it has is left by the event; whatever the
+    code around the loop can read of the exit state is known, but for the number of results written (`loop_fire_prefix`) -/
+theorem loop_fire_rule (env : Env) (a : Async) (n L Lr F : Nat) (W : Stmt) (extra : St → Prop) (hF : LoopSummary env a n L Lr F W extra) :
+    ∀ (k : Nat) (st : St), st.inputs = List.replicate n .item ++ [.release] → st.left.isSome = true →
+      st.left.getD 0 < loopLen n L Lr → st.inflight = none → st.stop = false → st.async = a → extra st →
+      exec env (F + k) st W = ({ st with rtrace := (loopEx env F st W).rtrace, inputs := (loopEx env F st W).inputs, extraNone := (loopEx env F st W).extraNone, raisedAt := (loopEx env F st W).raisedAt, ustate := (loopEx env F st W).ustate, results := (loopEx env F st W).results, counter := (loopEx env F st W).counter, left := none, inflight := none, terminateReq := firedReq a st, ctrlAlive := firedCtrl a st }, firedOut a) := by
+  intro k st hi hl hK hf hs ha hc
+  obtain ⟨K, hK'⟩ := Option.isSome_iff_exists.mp hl
+  rw [hK'] at hK
+  simp only [Option.getD_some] at hK
+  have h := (hF st K hi hK' ⟨hf, hs, ha⟩ hc).leftBy hK
+  have : exec env F st W = ({ st with rtrace := (loopEx env F st W).rtrace, inputs := (loopEx env F st W).inputs, extraNone := (loopEx env F st W).extraNone, raisedAt := (loopEx env F st W).raisedAt, ustate := (loopEx env F st W).ustate, results := (loopEx env F st W).results, counter := (loopEx env F st W).counter, left := none, inflight := none, terminateReq := firedReq a st, ctrlAlive := firedCtrl a st }, firedOut a) := by
+    obtain ⟨hout, _, h1, h2, h3, h4, h5, h6, h7, h8, h9, h10, h11, h12⟩ := h
+    unfold loopEx
+    generalize exec env F st W = r at *
+    obtain ⟨r1, r2⟩ := r
+    simp only at hout h1 h2 h3 h4 h5 h6 h7 h8 h9 h10 h11 h12
+    subst hout
+    cases r1
+    cases st
+    simp only at h1 h2 h3 h4 h5 h6 h7 h8 h9 h10 h11 h12 ⊢
+    subst h1 h2 h3 h4 h5 h6 h7 h8 h9 h10 h11 h12
+    rfl
+  exact exec_mono env this (firedOut_ne_fuel a) _ (Nat.le_add_right _ _)
+
+theorem loop_fire_prefix (env : Env) (a : Async) (n L Lr F : Nat) (W : Stmt) (extra : St → Prop) (hF : LoopSummary env a n L Lr F W extra)
+    (st : St) (K : Nat) (hi : st.inputs = List.replicate n .item ++ [.release]) (hl : st.left = some K) (hK : K < loopLen n L Lr)
+    (hq : QuietC a st) (hx : extra st) :
+    ∃ j, j ≤ n ∧ (loopEx env F st W).results = st.results ++ itemsFrom st.counter j :=
+  let ⟨j, hj, h, _⟩ := ((hF st K hi hl hq hx).leftBy hK).prefix_
+  ⟨j, hj, h⟩
+
+theorem streamShape_mono (env : Env) (prog : List Stmt) (st : St) (n F : Nat)
+    (h : StreamShape n (execBlock env F st prog)) : ∀ G, F ≤ G → StreamShape n (execBlock env G st prog) := by
+  intro G hG
+  rw [execBlock_mono env rfl h.1 G hG]
+  exact h
 
 end PwVerif.Py
